@@ -691,6 +691,8 @@ def getitem_model(M, interp, obj, key, node):
             f = obj.cls.lookup('__getitem__')
             return interp.call_function(f, [obj, key], {}, node)
         except KeyError:
+            if obj.tuple_items() is not None:
+                return getitem_model(M, interp, tuple(obj.tuple_items()), key, node)
             if hasattr(obj, 'dict_data'):
                 try:
                     return obj.dict_data[key]
